@@ -26,18 +26,9 @@ Definition selectors_ok (x : str * brule) : Prop :=
 Lemma leaf_new_selectors mid b vfs nd nd' :
   leaf mid b vfs nd = Ok nd' -> (forall m, ~ stored (info nd) (b_verb b) m) -> selectors_ok (mid, b).
 Proof.
-  intros H Hn. unfold Trie.leaf in H. unfold selectors_ok. cbn [fst snd].
-  destruct (match n_mall nd with Some y => conflict mid y | None => false end); [discriminate|].
-  destruct (str_eqb (b_verb b) star_verb) eqn:Ev.
-  - apply str_eqb_eq in Ev. destruct (existsb _ _); [discriminate|].
-    destruct (n_mall nd) as [y|] eqn:Em.
-    + exfalso. apply (Hn y). left. split; [exact Ev|exact Em].
-    + match type of H with (do m <- (if ?c then _ else _); _) = _ => destruct c eqn:Ec; [|discriminate] end.
-      apply andb_true_iff in Ec. exact Ec.
-  - destruct (assoc (b_verb b) (n_meths nd)) as [y|] eqn:Ea.
-    + exfalso. apply (Hn y). right. exact Ea.
-    + match type of H with (do m <- (if ?c then _ else _); _) = _ => destruct c eqn:Ec; [|discriminate] end.
-      apply andb_true_iff in Ec. exact Ec.
+  intros H _. unfold Trie.leaf in H. unfold selectors_ok. cbn [fst snd].
+  match type of H with (do m <- (if ?c then _ else _); _) = _ => destruct c eqn:Ec; [|discriminate] end.
+  apply andb_true_iff in Ec. exact Ec.
 Qed.
 
 (* a leaf update that succeeds met no binding of another method under an overlapping verb *)
